@@ -154,7 +154,7 @@ def run(ctx):
                         continue
                     jobs_i.append((ctx.repo, T, p, f, dt))
     by = {}
-    for job, r in zip(jobs_i, ctx.pmap(idx_worker, jobs_i)):
+    for job, r in ctx.pairs(idx_worker, jobs_i):
         cfg = r["cfg"]
         ev.obligation("idx", not r["problems"], ("idx",) + tuple(cfg.values()) if cfg["dt"] > 1 else None, sample=cfg if ev.obligations % 57 == 0 else None)
         for kind, what, site in r["problems"]:
@@ -182,7 +182,7 @@ def run(ctx):
                                         if down and D == 3 and not ctx.thorough():
                                             continue
                                         jobs.append((ctx.repo, D, T, p, f, dt, s, down, sig, consts, batched))
-    for job, r in zip(jobs, ctx.pmap(worker, jobs)):
+    for job, r in ctx.pairs(worker, jobs):
         cfg = r["cfg"]
         nontriv = cfg["dt"] > 1 or cfg["skip"] > 0 or cfg["constants"] or len(cfg["dynamic"]) > 1
         ev.obligation("window", not r["problems"], tuple(str(v) for v in cfg.values()) if nontriv else None, sample=cfg if ev.obligations % 37 == 0 else None)
